@@ -17,6 +17,11 @@ Import ListNotations.
 
 Inductive werr := KeyError | ValueError | OtherError.
 
+(* the `timeout` argument: None, a negative number (e.g. the remainder of a
+   used-up time budget, `t_end - time.time()`), or n >= 0 polling ticks
+   (fractions of a tick rounded up: the clock moves in whole ticks) *)
+Inductive tmo := TNone | TNeg | TTicks (n : nat).
+
 Section Wait.
   Context {state : Type}.
   Variable seqb : state -> state -> bool.
@@ -47,9 +52,17 @@ Section Wait.
     | RMany l => l
     end.
 
-  (* `timeout and (timeout <= time.time() - start)` at clock c *)
-  Definition timed_out (T : option nat) (c : nat) : bool :=
-    match T with Some (S t) => S t <=? c | _ => false end.
+  (* `timeout and (timeout <= time.time() - start)` at clock c: the timeout is
+     truthy (None and 0 are not; a negative number is) and not larger than
+     the time elapsed (c ticks >= 0: a negative timeout never is) *)
+  Definition truthy (T : tmo) : bool :=
+    match T with TNone => false | TNeg => true | TTicks O => false | TTicks (S _) => true end.
+  Definition le_elapsed (T : tmo) (c : nat) : bool :=
+    match T with TNone => false | TNeg => true | TTicks n => n <=? c end.
+  Definition timed_out (T : tmo) (c : nat) : bool := truthy T && le_elapsed T c.
+  (* the first tick at which that test holds, if any *)
+  Definition deadline (T : tmo) : option nat :=
+    match T with TNone => None | TNeg => Some 0 | TTicks O => None | TTicks (S t) => Some (S t) end.
   (* `self._tmgr._terminate.is_set()` at clock c *)
   Definition term_set (term : option nat) (c : nat) : bool :=
     match term with Some k => k <=? c | None => false end.
@@ -58,7 +71,7 @@ Section Wait.
   (* while self.state not in states and self.state not in FINAL:
          sleep; if timeout...: break; if terminate: break
      return self.state *)
-  Fixpoint poll1 (fuel : nat) (states : list state) (T term : option nat)
+  Fixpoint poll1 (fuel : nat) (states : list state) (T : tmo) (term : option nat)
     (tr : traj) (c : nat) : res :=
     let s := at_ tr c in
     if mem s states then Returned (VOne s) c
@@ -72,7 +85,7 @@ Section Wait.
              else poll1 f states T term tr c'
          end.
 
-  Definition entity_wait (r : req) (T term : option nat) (fuel : nat) (tr : traj) : res :=
+  Definition entity_wait (r : req) (T : tmo) (term : option nat) (fuel : nat) (tr : traj) : res :=
     let states := norm r in
     if is_final (at_ tr 0) then
       (* `if self.state in states: return self.state` / `return self.state` *)
@@ -121,7 +134,7 @@ Section Wait.
     negb (is_final (at_ tr c)) && (value (at_ tr c) <? v)%Z.
 
   (* the while loop; Some c = left at clock c, None = out of fuel *)
-  Fixpoint wt_loop (fuel : nat) (v : Z) (T term : option nat)
+  Fixpoint wt_loop (fuel : nat) (v : Z) (T : tmo) (term : option nat)
     (chk : list traj) (c : nat) : option nat :=
     match chk with
     | [] => Some c
@@ -142,7 +155,7 @@ Section Wait.
     | UMany l => (true, l)
     end.
 
-  Definition wait_tasks (r : req) (T term : option nat) (fuel : nat)
+  Definition wait_tasks (r : req) (T : tmo) (term : option nat) (fuel : nat)
     (tab : table) (u : uidsel) : res :=
     let '(ret_list, uids) := sel_tasks tab u in
     match check_val (norm r) with
@@ -162,7 +175,7 @@ Section Wait.
   Definition wp_keep (states : list state) (c : nat) (tr : traj) : bool :=
     negb (mem (at_ tr c) states) && negb (is_final (at_ tr c)).
 
-  Fixpoint wp_loop (fuel : nat) (states : list state) (T term : option nat)
+  Fixpoint wp_loop (fuel : nat) (states : list state) (T : tmo) (term : option nat)
     (chk : list traj) (c : nat) : option nat :=
     match chk with
     | [] => Some c
@@ -185,7 +198,7 @@ Section Wait.
     | UMany l => (true, l)
     end.
 
-  Definition wait_pilots (r : req) (T term : option nat) (fuel : nat)
+  Definition wait_pilots (r : req) (T : tmo) (term : option nat) (fuel : nat)
     (tab : table) (u : uidsel) : res :=
     let '(ret_list, uids) := sel_pilots tab u in
     match find_all tab uids with
